@@ -30,21 +30,49 @@ def bounds_game(n: int, lo, up, grand, known_singletons: bool = False):
     return g
 
 
+READ_API = ("get_value", "get_values", "get_known_value", "get_known_values", "get_lower_bound", "get_lower_bounds", "get_upper_bound",
+            "get_upper_bounds", "get_interval", "get_intervals", "is_value_known", "are_values_known")
+_REPORTED = None
+
+
+def reported_game(inner):
+    """The same bounds REPORTED by an instance of a subclass that answers every read accessor itself (its own raw table stays empty):
+    the identity is about the bounds a game reports, whatever its concrete type."""
+    global _REPORTED
+    if _REPORTED is None:
+        from incomplete_cooperative.game import IncompleteCooperativeGame
+
+        def delegate(name):
+            def call(self, *a, **k):
+                return getattr(self._inner, name)(*a, **k)
+            call.__name__ = name
+            return call
+
+        ns = {name: delegate(name) for name in READ_API}
+        ns["full"] = property(lambda self: self._inner.full)
+        _REPORTED = type("ReportedGame", (IncompleteCooperativeGame,), ns)
+    g = _REPORTED(inner.number_of_players)
+    g._inner = inner
+    return g
+
+
 def expected(n: int, lo, up) -> Fraction:
     N = (1 << n) - 1
     return sum((Fraction(up[s]) - Fraction(lo[s])) / math.comb(n, A.popcount(s)) for s in range(1, N))
 
 
-def check_vector(st: Stats, n: int, lo, up, grand, tag: str, vertices: bool, known_singletons: bool = False) -> None:
+def check_vector(st: Stats, n: int, lo, up, grand, tag: str, vertices: bool, known_singletons: bool = False, reported: bool = False) -> None:
     if known_singletons:
         up = list(up)
         for i in range(n):
             up[1 << i] = lo[1 << i]
     from incomplete_cooperative.exploitability import MaxGainGame, compute_exploitability
     from incomplete_cooperative.shapley import compute_shapley_value_for_player
-    doc = {"n": n, "lower": list(lo), "upper": list(up), "grand": grand, "vertices": vertices, "known_singletons": known_singletons}
+    doc = {"n": n, "lower": list(lo), "upper": list(up), "grand": grand, "vertices": vertices, "known_singletons": known_singletons, "reported": reported}
     try:
         g = bounds_game(n, lo, up, grand, known_singletons)
+        if reported:
+            g = reported_game(g)
         got = float(compute_exploitability(g))
     except Exception as e:  # noqa: BLE001
         st.violation(f"[expl n={n} {tag}] raised {type(e).__name__}: {e}", **doc)
@@ -174,6 +202,9 @@ def lattice3_unit(u) -> Stats:
             huge = [float(2 ** 33) * sum((1, 1, 2)[i] for i in range(3) if s >> i & 1) for s in range(8)]
             check_vector(st, n, [a + o for a, o in zip(lo, huge)], [a + o for a, o in zip(up, huge)], grand + huge[7], f"lattice#{m}+huge", False)
             st.states += 3
+        if m % 4 == 2:          # the same bounds reported by an instance of a subclass (every read accessor answered by the subclass)
+            check_vector(st, n, lo, up, grand, f"lattice#{m}/reported-by-subclass", False, reported=True)
+            st.states += 1
         if m % 4 == 1:          # exactly the minimal information known (singletons too), prescribed intervals elsewhere
             check_vector(st, n, lo, up, grand, f"lattice#{m}/singletons-known", False, known_singletons=True)
             st.states += 1
@@ -280,6 +311,6 @@ def replay(doc: dict):
     elif doc.get("large"):
         st = large_unit(("large", doc["n"]))
     else:
-        check_vector(st, doc["n"], doc["lower"], doc["upper"], doc["grand"], "replay", bool(doc.get("vertices")), bool(doc.get("known_singletons")))
+        check_vector(st, doc["n"], doc["lower"], doc["upper"], doc["grand"], "replay", bool(doc.get("vertices")), bool(doc.get("known_singletons")), bool(doc.get("reported")))
     msgs = [v["message"] for v in st.violations]
     return bool(msgs), f"replay n={doc['n']}: " + ("; ".join(msgs) if msgs else "exploitability identity holds on this input")
